@@ -8,6 +8,7 @@ mod exec_geo;
 mod exec_lin;
 mod exec_cast;
 mod exec_misc;
+mod exec_proj;
 mod exec_serde;
 mod swizzle_gen;
 mod exec_sleft;
